@@ -206,6 +206,7 @@ static int parse_ptr(const char *s, void **out) {
 #define O(i) (&c->a[i].o)
 typedef void (*callfn)(Call *);
 typedef struct { const char *name; callfn fn; int retkind; const char *argk; } Entry;
+#include "shims.h"
 #include "dispatch.inc"
 
 static const Entry *find_entry(const char *name) {
